@@ -743,6 +743,7 @@ def run(tier, seed, model_ok, translator, search=False):
     scratch = Path(tempfile.mkdtemp(prefix="c18-")).resolve()
     ops, pend = [], []
     try:
+        c16.warm_up(scratch)
         order = c16.probe_order(scratch)
         out.count("worklist_discipline:" + "/".join(order[k] for k in ("pop", "children", "lines")))
         for idx, case in gen_cases(tier, seed, search):
@@ -867,6 +868,7 @@ def replay(rep):
         return False, "replay file has no input (no-failing-input-found): " + str(rep.get("broken"))[:300]
     scratch = Path(tempfile.mkdtemp(prefix="c18r-")).resolve()
     try:
+        c16.warm_up(scratch)      # earlier uses of the loader in this process (state left behind), judged by nothing
         o = Outcome()
         if "history" in case:
             shared_dict_loads(case["history"], scratch / "h", o, {"history": case["history"]}, False, "lifo")
